@@ -39,11 +39,11 @@ STRATS = ["_find_all_subgraph_mappings", "_find_component_aware_subgraph_mapping
 
 
 def run(rep):
-    nonmut(rep)
-    predicates_and_roles(rep)
-    component_aware(rep)
-    fallback_and_dispatch(rep)
-    limits(rep)
+    rep.run(nonmut)
+    rep.run(predicates_and_roles)
+    rep.run(component_aware)
+    rep.run(fallback_and_dispatch)
+    rep.run(limits)
 
 
 def nonmut(rep):
